@@ -219,7 +219,7 @@ def shrink(inp):
 
 
 COMPONENTS = [
-    Component(1101, "attack_actors", impl, gen, chk=None, nontrivial=nontrivial, classify=classify,
+    Component(1101, "attack_actors", impl, gen, chk=1102, nontrivial=nontrivial, classify=classify,
               shrink=shrink, compare=compare),
 ]
 COMPONENTS[0].split = split
